@@ -67,6 +67,8 @@ def run(ctx):
         n = rng.randint(1, 4)
         cases.append((n, build(rng, n, rng.randint(0, 3)), build(rng, n, rng.randint(0, 3))))
     for n, p, q in cases:
+        if ctx.expired():
+            break
         wp, wq = wire(p), wire(q)
         snap_p, snap_q = copy.deepcopy(wp), copy.deepcopy(wq)
         try:
